@@ -379,6 +379,16 @@ fn not_a_date() -> BoxedStrategy<String> {
     1 => Just(" 2020-01-01T00:00:00Z".to_string()),
     1 => Just("tomorrow".to_string()),
     1 => Just("１９９９-01-01T00:00:00Z".to_string()),
+    // the rest of ISO 8601 and what other libraries take for a time: durations, intervals, recurrences, bare times, week and
+    // ordinal dates behind a letter, relative words, epoch numbers spelt out - none of them is a date-time
+    4 => (any::<u16>(), 0u32..400, 0u32..60).prop_map(|(i, a, b)| {
+      let forms: [String; 22] = [
+        format!("P{a}D"), format!("PT{a}M"), format!("P{a}W"), format!("P1Y2M{a}DT4H5M{b}S"), format!("PT{a}.{b}S"), format!("P{a}D and a bit"), "P".to_string(), "PT".to_string(),
+        format!("P0001-02-03T04:05:{:02}", b), format!("R5/2020-01-01T00:00:00Z/P{a}D"), format!("P{a}D/2020-01-01T00:00:00Z"), format!("T{:02}:{:02}:00Z", a % 24, b), format!("T{:02}{:02}", a % 24, b),
+        format!("W{:02}-1", 1 + a % 52), format!("now+{a}s"), format!("in {a} minutes"), format!("{a}h"), format!("{a}d"), "never".to_string(), "max".to_string(), format!("@{a}"), format!("epoch:{a}"),
+      ];
+      forms[pick(i, forms.len())].clone()
+    }),
   ]
   .prop_filter("outside the ISO 8601 date prefix domain", |s| {
     let c: Vec<char> = s.chars().collect();
